@@ -427,6 +427,7 @@ def run(ck, only=None):
     if not only or only.get("linkage"):
         linkage_part(ck)
         symbols_part(ck)
+        abi_names_part(ck)
     if only and (only.get("cpp") or only.get("linkage")):
         return
     ck.sample({"signature": fns[min(len(fns) - 1, 200)].cid(), "prototype": fns[min(len(fns) - 1, 200)].proto()})
@@ -753,6 +754,61 @@ def symbols_part(ck):
                 ck.violation(f"symbols lang={lang} target={t} symbol={sym} not-reached", dict(det, predicate=f"symbols-unreached|{lang}|{'macho' if prefix else 'elf'}|{sym}",
                              why=f"no binding refers to `{sym}` on {t}; the bindings refer to {sorted(refs)[:14]}"))
     ck.extra["symbol_references_checked"] = n
+
+
+ABI_NAMES_H = r"""
+struct ops { long (*fold)(long a, long b); long (__attribute__((ms_abi)) *tick)(long x); void (*cb)(int); };
+long __attribute__((ms_abi)) fold(long a, long b);
+long tick(long x);
+typedef void (__attribute__((ms_abi)) *cb)(int);
+void takes(cb c, void (*fold)(int));
+void __attribute__((ms_abi)) unrelated(void);
+"""
+
+
+def abi_names_part(ck):
+    """Declarations that SHARE A NAME but not a calling convention (a function and a function-pointer member, a typedef and a
+    member, a parameter), under option rows that contain an --override-abi for some OTHER name: each signature keeps its own
+    convention (read from the bindings' tokens: the ABI of the extern block / of the `extern "..." fn` pointer type)."""
+    wd = os.path.join(ck.wd, "abinames")
+    os.makedirs(wd, exist_ok=True)
+    hp = os.path.join(wd, "abinames.h")
+    open(hp, "w").write(ABI_NAMES_H)
+    rows = [("default", []), ("override-unrelated", ["--override-abi", "unrelated=C"]), ("override-absent", ["--override-abi", "no_such_function=system"]),
+            ("override-unrelated-merge", ["--override-abi", "unrelated=C", "--merge-extern-blocks"])]
+    res = common.run_jobs([{"id": n, "args": [hp, "--no-layout-tests", "--formatter", "none"] + fl, "inventory": True} for n, fl in rows], wd)
+    want_fn = {"fold": "win64", "tick": "C", "takes": "C", "unrelated": None}
+    for n, fl in rows:
+        r = res[n]
+        det = {"linkage": True, "abinames": n}
+        ck.count()
+        if r["status"] != "ok":
+            ck.violation(f"abi-names opt={n} generation-failed", dict(det, why=str(r)[:200]))
+            continue
+        fn_abi, fields, types = {}, {}, {}
+        for it in r["inventory"]["items"]:
+            if it["kind"] == "foreign_mod":
+                for fi in it["items"]:
+                    fn_abi[fi["name"]] = it.get("abi")
+            elif it["kind"] == "struct" and it["name"] == "ops":
+                fields = {f["name"]: f["ty"].replace(" ", "") for f in it["fields"]}
+            elif it["kind"] == "type":
+                types[it["name"]] = it["tokens"].replace(" ", "")
+        probs = []
+        for name, abi in want_fn.items():
+            got = fn_abi.get(name)
+            want = abi if name != "unrelated" else ("C" if "unrelated=C" in fl else "win64")
+            if got != want:
+                probs.append(f"function {name}: extern \"{got}\" block, declared convention is \"{want}\"")
+        for fname, abi in (("fold", "C"), ("tick", "win64"), ("cb", "C")):
+            if f'extern"{abi}"fn' not in fields.get(fname, ""):
+                probs.append(f"member ops.{fname}: `{fields.get(fname)}`, declared convention is \"{abi}\"")
+        if 'extern"win64"fn' not in types.get("cb", ""):
+            probs.append(f"typedef cb: `{types.get('cb')}`, declared convention is \"win64\"")
+        ck.nontriv(("abinames", n))
+        if probs:
+            ck.violation(f"abi-names opt={n}", dict(det, why="; ".join(probs)[:600]))
+    ck.extra["abi_name_rows"] = len(rows)
 
 
 def replay(ck, case, detail):
